@@ -579,6 +579,173 @@ func genLRMixed(r *hx.Rand, n, universe int) []string {
 	return ops
 }
 
+// genProdBig: n distinct heads (real hash values, no search for collisions), every one looked up, some removed and
+// added again: the table behind grammar.Productions with more than 16 / 64 / 256 / 1024 keys.
+func genProdBig(r *hx.Rand, n int) []string {
+	var ops []string
+	base := r.Intn(100000)
+	name := func(i int) string { return hexName(ntName(base + i)) }
+	for i := 0; i < n; i++ {
+		ops = append(ops, fmt.Sprintf("add %s %d", name(i), r.Intn(3)))
+		if r.Chance(1, 6) {
+			ops = append(ops, "get "+name(r.Intn(i+1)), "get "+name(n+r.Intn(50)), "probes "+name(n+r.Intn(50)))
+		}
+	}
+	for i := 0; i < n; i += 1 + r.Intn(3) {
+		ops = append(ops, "get "+name(i))
+	}
+	for i := 0; i < n; i += 1 + r.Intn(4) { // shrinks the table on the way
+		ops = append(ops, "removeall "+name(i))
+		if r.Chance(1, 5) {
+			ops = append(ops, "get "+name(i), fmt.Sprintf("add %s 1", name(i)), "get "+name(i))
+		}
+	}
+	ops = append(ops, "get "+name(0), "get "+name(n-1), "probes "+name(n+7))
+	return ops
+}
+
+// genLRBig: n states with an action and a goto entry each, and one state whose rows hold `row` symbols.
+func genLRBig(r *hx.Rand, n, row int) []string {
+	var ops []string
+	base := r.Intn(1000)
+	for i := 0; i < n; i++ {
+		s := base + i
+		ops = append(ops, fmt.Sprintf("addaction %d %s %d", s, hexName(tName(i%7)), i%50),
+			fmt.Sprintf("setgoto %d %s %d", s, hexName(ntName(i%5)), (i+1)%n))
+		if r.Chance(1, 6) {
+			q := base + r.Intn(i+1)
+			ops = append(ops, fmt.Sprintf("action %d %s", q, hexName(tName((q-base)%7))), fmt.Sprintf("goto %d %s", q, hexName(ntName((q-base)%5))),
+				fmt.Sprintf("action %d %s", base+n+r.Intn(40), hexName(tName(0))), fmt.Sprintf("probes %d", base+n+r.Intn(40)))
+		}
+	}
+	s := base + r.Intn(n)
+	for j := 0; j < row; j++ {
+		ops = append(ops, fmt.Sprintf("addaction %d %s %d", s, hexName(tName(100+j)), j), fmt.Sprintf("setgoto %d %s %d", s, hexName(ntName(100+j)), j))
+		if r.Chance(1, 8) {
+			ops = append(ops, fmt.Sprintf("action %d %s", s, hexName(tName(100+r.Intn(j+1)))), fmt.Sprintf("goto %d %s", s, hexName(ntName(100+row+3))))
+		}
+	}
+	for i := 0; i < n; i += 1 + r.Intn(5) {
+		ops = append(ops, fmt.Sprintf("action %d %s", base+i, hexName(tName(i%7))), fmt.Sprintf("goto %d %s", base+i, hexName(ntName(i%5))))
+	}
+	return ops
+}
+
+// ---------------------------------------------------------------- FIRST / FOLLOW tables (judged by the oracle only)
+
+// execFirstFollow: the tables behind ComputeFIRST / ComputeFOLLOW (quadratic tables keyed by grammar symbol resp.
+// non-terminal, default options) with n non-terminals. No Model of these two functions exists here (they are the
+// subject of C10); the case is judged by this oracle alone: both calls return under the watchdog, and the sets are
+// the ones the grammar has by construction.
+//
+//	shape=chain  N_i -> t_i N_{i+1} | t_i     FIRST(N_i) = {t_i}, FOLLOW(N_i) = {$}
+//	shape=fan    S -> N_0 | … | N_{n-1}, N_i -> t_i    FIRST(S) = all n terminals, FOLLOW(N_i) = {$}
+func execFirstFollow(c hx.Case) hx.Result {
+	r := &runner{res: hx.Result{BadOp: -1}, tags: map[string]bool{"comp=firstfollow": true}}
+	n, _ := strconv.Atoi(hx.HeaderGet(c.Header, "n"))
+	shape := hx.HeaderGet(c.Header, "shape")
+	if n < 1 {
+		n = 1
+	}
+	var terms []grammar.Terminal
+	var nts []grammar.NonTerminal
+	var prods []*grammar.Production
+	for i := 0; i < n; i++ {
+		terms = append(terms, grammar.Terminal(tName(i)))
+		nts = append(nts, grammar.NonTerminal(ntName(i)))
+	}
+	start := nts[0]
+	if shape == "fan" {
+		start = grammar.NonTerminal("S")
+		for i := 0; i < n; i++ {
+			prods = append(prods, &grammar.Production{Head: start, Body: grammar.String[grammar.Symbol]{nts[i]}},
+				&grammar.Production{Head: nts[i], Body: grammar.String[grammar.Symbol]{terms[i]}})
+		}
+		nts = append(nts, start)
+	} else {
+		for i := 0; i < n; i++ {
+			if i+1 < n {
+				prods = append(prods, &grammar.Production{Head: nts[i], Body: grammar.String[grammar.Symbol]{terms[i], nts[i+1]}})
+			}
+			prods = append(prods, &grammar.Production{Head: nts[i], Body: grammar.String[grammar.Symbol]{terms[i]}})
+		}
+	}
+	var g *grammar.CFG
+	var first grammar.FIRST
+	var follow grammar.FOLLOW
+	watchdog := 30 * time.Second
+	for i, op := range c.Ops {
+		var kind string
+		out := "bad-op"
+		returned := hx.WithTimeout(watchdog, func() {
+			kind = hx.Try(func() {
+				switch op {
+				case "build":
+					g = grammar.NewCFG(terms, nts, prods, start)
+					out = "ok"
+				case "first":
+					if g == nil {
+						return
+					}
+					first = g.ComputeFIRST()
+					bad := 0
+					for j := 0; j < n; j++ {
+						f := first(grammar.String[grammar.Symbol]{grammar.NonTerminal(ntName(j))})
+						if f == nil || f.IncludesEmpty || f.Terminals.Size() != 1 || !f.Terminals.Contains(terms[j]) {
+							bad++
+						}
+					}
+					if shape == "fan" {
+						f := first(grammar.String[grammar.Symbol]{start})
+						if f == nil || f.IncludesEmpty || f.Terminals.Size() != n {
+							bad++
+						}
+					}
+					if bad > 0 {
+						r.bad(i, "FIRST is wrong for %d of the %d non-terminals (shape %s)", bad, n, shape)
+					}
+					out = fmt.Sprintf("ok first wrong=%d", bad)
+				case "follow":
+					if g == nil || first == nil {
+						return
+					}
+					follow = g.ComputeFOLLOW(first)
+					bad := 0
+					for j := 0; j < n; j++ {
+						f := follow(grammar.NonTerminal(ntName(j)))
+						if f == nil || !f.IncludesEndmarker || f.Terminals.Size() != 0 {
+							bad++
+						}
+					}
+					if bad > 0 {
+						r.bad(i, "FOLLOW is wrong for %d of the %d non-terminals (shape %s)", bad, n, shape)
+					}
+					out = fmt.Sprintf("ok follow wrong=%d", bad)
+				}
+			})
+		})
+		if !returned {
+			r.res.Outs = append(r.res.Outs, "hang")
+			r.bad(i, "%s did not return within %v (n=%d, shape=%s)", op, watchdog, n, shape)
+			r.tags["hang"] = true
+			c02.HangsObserved++
+			return r.finish(true)
+		}
+		if kind != "" {
+			r.res.Outs = append(r.res.Outs, "panic")
+			r.bad(i, "%s panicked (%s)", op, kind)
+			return r.finish(true)
+		}
+		r.res.Outs = append(r.res.Outs, out)
+	}
+	for _, th := range []int{16, 64, 256, 1024} {
+		if n > th {
+			r.tags[fmt.Sprintf("keys>%d", th)] = true
+		}
+	}
+	return r.finish(n > 16)
+}
+
 // mainInternal generates the cases of the two library-internal components; true = stop the run.
 func mainInternal(run *hx.Run, lim *c02.Limiter) bool {
 	r := run.R.Fork("internal-users")
@@ -612,6 +779,25 @@ func mainInternal(run *hx.Run, lim *c02.Limiter) bool {
 			do("productions", genProdChurn(r, h67, r.Intn(8))) ||
 			do("lrtable", genLRRow(r, t31[:r.Range(17, 36)], h31[:20])) {
 			return true
+		}
+	}
+	// more than 16 / 64 / 256 (thorough: 1024) keys in the internal tables, and next to those sizes
+	sizes := []int{17, 65, 257}
+	if run.Thorough() && !lim.Search() {
+		sizes = []int{16, 17, 63, 64, 65, 255, 256, 257, 1023, 1024, 1025}
+	}
+	for _, n := range sizes {
+		if do("productions", genProdBig(r, n)) || do("lrtable", genLRBig(r, n, n/4+17)) {
+			return true
+		}
+		for _, shape := range []string{"chain", "fan"} {
+			if n > 300 && shape == "chain" && !run.Thorough() {
+				continue
+			}
+			run.Do("firstfollow", hx.Case{Header: fmt.Sprintf("comp=firstfollow n=%d shape=%s", n, shape), Ops: []string{"build", "first", "follow"}, NoModel: true}, Exec)
+			if lim.Stop(run) {
+				return true
+			}
 		}
 	}
 	for k, n := 0, run.Scale(10); k < n; k++ {
